@@ -450,11 +450,25 @@ func Segs(t *Term) []*Term {
 }
 
 // SynLen returns a syntactic length for well-known constructors, or nil.
+// lenHints records the known length of fresh sequence symbols (set where the symbol is introduced
+// together with the matching assumption len(sym) == n).
+var lenHints = map[string]*Term{}
+
 func SynLen(t *Term) *Term {
+	if t.Op == "var" {
+		if l, ok := lenHints[t.Name]; ok {
+			return l
+		}
+		return nil
+	}
 	if t.Op != "app" {
 		return nil
 	}
 	switch t.Name {
+	case "rep":
+		return t.Args[1] // constructors only build rep with a non-negative count
+	case "fixed":
+		return t.Args[1] // field widths are non-negative (requires of every fixed-width primitive)
 	case "empty":
 		return IntC(0)
 	case "unit":
